@@ -231,7 +231,14 @@ class Group:
         def sval(path, sp):
             c = ex.load(path, Ptr(sp.obj, sp.path + (0,)))
             if isinstance(c, Abs):
-                return c.v
+                # the recoders work on the integer that Bytes() encodes: the canonical representative in [0, l).  A cell
+                # produced by scalar arithmetic inside the routine is only known modulo l (its form may exceed l), and
+                # the *exact* integer matters because points may have a torsion component ([l]P != 0)
+                v = LF.of(c.v)
+                lo, hi = dom.rng(path, v)
+                if lo < 0 or hi >= L:
+                    q, v = dom.divmod(path, v, L)
+                return v
             raise ExecError("scalar cell %r" % (c,))
 
         def radix16(ex_, path, a):
